@@ -2,10 +2,12 @@ module verifharness
 
 go 1.21
 
-require github.com/elastic/go-libaudit/v2 v2.0.0
+require (
+	github.com/elastic/go-libaudit/v2 v2.0.0
+	github.com/kballard/go-shellquote v0.0.0-20180428030007-95032a82bc51
+)
 
 require (
-	github.com/kballard/go-shellquote v0.0.0-20180428030007-95032a82bc51 // indirect
 	golang.org/x/sys v0.11.0 // indirect
 	gopkg.in/yaml.v3 v3.0.1 // indirect
 )
